@@ -6,6 +6,7 @@ escapes lone surrogates).  Python-only values are tagged:
     {"$py": "<palette name>"}                       a palette value (see PALETTE)
     {"$py": "bytes"|"bytearray", "hex": "..."}      byte strings
     {"$py": "tuple", "items": [...]}                tuples
+    {"$py": "pydict", "items": [[k, v], ...]}       dicts with arbitrary (hashable) keys
     {"$py": "bigint", "digits": n, "lead": "9"}     huge integers (not spelled out)
     {"$py": "deep", "depth": n, "kind": "list"}     deeply nested containers
     {"$py": "strsub"|"intsub"|"dictsub"|"listsub", "v": ...}  subclass instances
@@ -108,6 +109,9 @@ def dec(j, lib=None):
                 from ..refs import ed25519
 
                 return lib.common.PublicKey.from_bytes(ed25519.public(seed))
+            if t == "pydict":
+                # a dict whose KEYS need not be strings: items = [[key case, value case], ...]
+                return {dec(k, lib): dec(v, lib) for k, v in j["items"]}
             if t == "float":
                 return float(j["v"])
             if t == "longstr":
